@@ -123,9 +123,12 @@ func (r *Run) CountN(key string, k int) {
 	r.mu.Unlock()
 }
 
+// AddShape appends a symbol to the run's schedule shape. Consecutive repeats
+// are collapsed, so two runs differing only in how many times the same kind
+// of event happened in a row count as the same shape.
 func (r *Run) AddShape(s string) {
 	r.mu.Lock()
-	if len(r.Shape) < 4096 {
+	if len(r.Shape) < 4096 && (len(r.Shape) == 0 || r.Shape[len(r.Shape)-1] != s) {
 		r.Shape = append(r.Shape, s)
 	}
 	r.mu.Unlock()
